@@ -370,7 +370,7 @@ def defaults_family(rng):
             'params': [{'name': 'tag', 'type': 'str'},
                        {'name': 'width', 'type': 'int', 'default': 1},
                        {'name': 'note', 'type': ['opt', 'str'],
-                        'default': None}],
+                        'default': None}, {'name': 'level', 'type': ['union', 'int', 'str'], 'default': 0}, {'name': 'ratio', 'type': ['union', 'float', 'str'], 'default': 1.5}],
             'defaults_override': rng.choice([{'zz_unused': 1},
                                              {'note': 'n/a'}])}
     classes = [base]
@@ -380,7 +380,7 @@ def defaults_family(rng):
                         {'name': 'kid%d_id' % i, 'type': 'int'},
                         {'name': 'width', 'type': 'int', 'default': d},
                         {'name': 'note', 'type': ['opt', 'str'],
-                         'default': None}],
+                         'default': None}, {'name': 'level', 'type': ['union', 'int', 'str'], 'default': 0}, {'name': 'ratio', 'type': ['union', 'float', 'str'], 'default': 1.5}],
              'sweeten': [['remove_defaults']], 'savorize': [['record']]}
         if rng.random() < 0.3:
             k['defaults_override'] = {'note': 'kid%d' % i}
@@ -396,7 +396,7 @@ def defaults_family(rng):
                      {'name': 'hb_id', 'type': 'int'},
                      {'name': 'width', 'type': 'int', 'default': 2},
                      {'name': 'note', 'type': ['opt', 'str'],
-                      'default': None}],
+                      'default': None}, {'name': 'level', 'type': ['union', 'int', 'str'], 'default': 0}, {'name': 'ratio', 'type': ['union', 'float', 'str'], 'default': 1.5}],
           'recognize': ['attr_value', 'heir', 'HBase'],
           'savorize': [['remove_attr', 'heir']],
           'sweeten': [['set_attr', 'heir', 'HBase']]}
@@ -438,7 +438,12 @@ def run_defaults_family(ctx, rng):
         if rng.random() < 0.8:
             kw['width'] = rng.choice([1, 2, 3, 5])
         if rng.random() < 0.5:
-            kw['note'] = rng.choice(['n/a', 'kid0', 'kid1', 'x', None, 'slow', 'fast'])
+            kw['note'] = rng.choice(['n/a', 'kid0', 'kid1', 'x', None, 'slow',
+                                     'fast', 'None', 'null', '~', ''])
+        if rng.random() < 0.4:
+            kw['level'] = rng.choice([0, '0', 1, '1', 'x', '0.0', '00', ''])
+        if rng.random() < 0.4:
+            kw['ratio'] = rng.choice([1.5, '1.5', '1.50', 2.0, '15e-1', 'x'])
         if c.get('extra') and rng.random() < 0.6:
             import collections
             kw['_yatiml_extra'] = collections.OrderedDict(
